@@ -130,7 +130,7 @@ func c03build() {
 
 func c03layout(env *core.Env) (directed, random int) {
 	c03build()
-	return len(c03directed) * len(c03subjectNames), env.Pick(250, 8000) * len(c03subjectNames)
+	return len(c03directed) * len(c03subjectNames), env.Pick(400, 12000) * len(c03subjectNames)
 }
 
 func init() {
